@@ -208,6 +208,13 @@ def run(ctx):
     r = rng("C06")
     recs = []
     texts = {}
+    # language level: product of the extracted recognisers with the spec grammars, witnesses replayed on the real code
+    import lang
+    lrecs, _info = lang.run_lang(ctx, "C06")
+    lby = {x["id"]: x for x in lrecs}
+    lrej = ctx.validate(lrecs)
+    lang.report(ctx, lrej, lby)
+    lang.note_unreproduced(ctx, lrecs, lrej)
     # ---- MC + REPLAY: the framing scanner on every short tail; all well-formed ones + a seeded slice of the rest
     res = ctx.mc("MC_Framing", ctx.pick("MC_Framing_quick", "MC_Framing"), deadlock=False, timeout=1800)
     beh = _notes._behaviours(res)
